@@ -43,19 +43,31 @@ impl PidAllocator {
     }
 
     pub fn allocate(&self) -> Result<ExternalPid> {
+        #[cfg(edp_rs_verif)]
+        crate::verif_hooks::yield_point(1);
         let _guard = self.wrap_lock.lock().map_err(|e| {
             Error::InvalidStateMessage(format!("PID allocator lock poisoned: {}", e))
         })?;
 
+        #[cfg(edp_rs_verif)]
+        crate::verif_hooks::yield_point(2);
         let id = self.next_id.load(Ordering::Relaxed);
+        #[cfg(edp_rs_verif)]
+        crate::verif_hooks::yield_point(3);
         let serial_u64 = self.next_serial.load(Ordering::Relaxed);
         let serial = (serial_u64 % (u32::MAX as u64 + 1)) as u32;
 
         let next_id = id + 1;
         if id >= MAX_PROCESSES_PER_NODE {
+            #[cfg(edp_rs_verif)]
+            crate::verif_hooks::yield_point(4);
             self.next_id.store(1, Ordering::Relaxed);
+            #[cfg(edp_rs_verif)]
+            crate::verif_hooks::yield_point(5);
             let new_serial = self.next_serial.fetch_add(1, Ordering::Relaxed) + 1;
             let wrapped_serial = (new_serial % (u32::MAX as u64 + 1)) as u32;
+            #[cfg(edp_rs_verif)]
+            crate::verif_hooks::yield_point(6);
 
             Ok(ExternalPid::new(
                 self.node_name.clone(),
@@ -64,7 +76,11 @@ impl PidAllocator {
                 self.creation.load(Ordering::Relaxed),
             ))
         } else {
+            #[cfg(edp_rs_verif)]
+            crate::verif_hooks::yield_point(7);
             self.next_id.store(next_id, Ordering::Relaxed);
+            #[cfg(edp_rs_verif)]
+            crate::verif_hooks::yield_point(8);
 
             Ok(ExternalPid::new(
                 self.node_name.clone(),
